@@ -155,7 +155,9 @@ class GhostRNG(object):
         c = self._next('integers')
         if size is not None:
             raise sym.Unsupported('integers with size')
-        return mk(UI(self.stream, c, w(low), w(high) if high is not None else sp.Integer(0)))
+        r = mk(UI(self.stream, c, w(low), w(high) if high is not None else sp.Integer(0)))
+        r.npint = True          # numpy returns numpy.int64, which is *not* an instance of the builtin int
+        return r
 
     def uniform(self, *a, **k):
         raise sym.Unsupported('Generator.uniform')
